@@ -17,6 +17,22 @@ pub open spec fn cap_of(opt: &BuildOption, dimensions: usize) -> u64 {
     (match opt.split_after { Some(s) => s, None => dimensions }) as u64
 }
 
+impl ImmutableTrees {
+// the snap clauses are the contracts PROVED in unit `trees_new`; the db_has clause only NAMES (ghost) the tree ids the database held when the view was frozen
+//@extract src/parallel.rs | impl<'t, D: Distance> ImmutableTrees<'t, D> | new
+//@stub
+//@specfile lib/contracts/immutable_trees_new.spec
+//@spec
+        r matches Ok(t) ==> (forall|id: u32| #![trigger t.db_has(id)] t.db_has(id) <==> rtxn.view().contains_key(tkey(index, id))),
+//@end
+//@extract src/parallel.rs | impl<'t, D: Distance> ImmutableTrees<'t, D> | sub_tree_from_id
+//@stub
+//@specfile lib/contracts/immutable_trees_sub_tree.spec
+//@spec
+        r matches Ok(t) ==> (forall|id: u32| #![trigger t.db_has(id)] t.db_has(id) <==> rtxn.view().contains_key(tkey(index, id))),
+//@end
+}
+
 impl Writer {
 //@extract src/writer.rs | impl<D: Distance> Writer<D> | insert_items_in_tree
 //@stub
@@ -41,7 +57,7 @@ impl Writer {
             forall|x: u32| #![trigger done.contains(x)] !(done.contains(x) && to_insert@.contains(x)),
             forall|id: u32| ins0.contains(id) ==> v0.contains_key(ikey(i, id)),
             forall|k: int| 0 <= k < rs.len() ==> ins0.disjoint(titems(m0, tn(#[trigger] rs[k]))),
-//@hint before <<<let immutable_tree_nodes = if roots.len() == 1 {>>>
+//@loopstart 0
             let ghost va = wtxn.view(); let ghost ma = tmap(va, i); let ghost pend = to_insert@; let ghost lg0 = large_descendants@;
             proof {
                 assert(tree(ma, tn(rs[0])));
